@@ -381,12 +381,15 @@ Proof.
     apply go_int_text_is_render_int; [assumption | lia]. }
   rewrite E, text_eqb_refl. reflexivity.
 Qed.
+(* the digits dirR renders from a fixnum or a bignum are the decimal text of the integer: FixnumProofs *)
+From C15 Require Import FixnumProofs.
 (* ~@R and ~:@R of 1..3999 (tables as in the source): same result, no taint added *)
 Theorem roman_site_coincides : forall colon c z, (1 <= z <= 3999)%Z -> arg_at c = Some (VInt z) ->
   dir_radix true src_tables colon true [] c = dir_radix false src_tables colon true [] c.
 Proof.
   intros colon c z Hz Ha. unfold dir_radix. rewrite Ha.
   destruct (nargs c <=? c_apos c)%Z; [reflexivity|].
+  rewrite go_radix_digits_is_dec_text.
   rewrite (go_roman_is_roman colon z Hz).
   destruct (std_roman colon z) as [t|]; unfold pick; cbn [opt_text_eqb]; rewrite ?text_eqb_refl; reflexivity.
 Qed.
@@ -410,6 +413,7 @@ Theorem roman_site_coincides_all : forall colon c z, arg_at c = Some (VInt z) ->
 Proof.
   intros colon c z Ha. unfold dir_radix. rewrite Ha.
   destruct (nargs c <=? c_apos c)%Z; [reflexivity|].
+  rewrite go_radix_digits_is_dec_text.
   rewrite (go_roman_all_integers colon z).
   destruct (std_roman colon z) as [t|]; unfold pick; cbn [opt_text_eqb]; rewrite ?text_eqb_refl; reflexivity.
 Qed.
@@ -418,6 +422,7 @@ Theorem english_site_coincides : forall colon c z, arg_at c = Some (VInt z) ->
 Proof.
   intros colon c z Ha. unfold dir_radix. rewrite Ha.
   destruct (nargs c <=? c_apos c)%Z; [reflexivity|].
+  rewrite go_radix_digits_is_dec_text.
   rewrite (english_loop colon z).
   destruct (std_english colon z) as [t|]; unfold pick; cbn [opt_text_eqb]; rewrite ?text_eqb_refl; reflexivity.
 Qed.
